@@ -113,6 +113,7 @@ def stateDigest (C : Crypto) (cs : CoinState) (full : Bool) : String :=
 
 def errKind : Err → String
   | .validation _ => "validation"
+  | .range _ => "range"
   | .key _ => "key"
   | .decode => "decode"
   | .other _ => "other"
@@ -279,6 +280,7 @@ def step (d : DState) (line : String) : DState × String :=
   | ["scrypt", pw, salt, o] => ({ d with scrypts := (hx pw, hx salt, hx o) :: d.scrypts }, "ok")
   | ["new", name] => (d.putState name CoinState.empty, "ok")
   | ["copy", dst, src] => (d.putState dst (d.getState src), "ok")
+  | ["sethead", dst, src, id] => (d.putState dst { d.getState src with current := some (hx id) }, "ok")
   | ["addnv", dst, src, blk] =>
     (match Block.ofBytes C (hx blk) with
       | none => (d, "err decode")
